@@ -100,3 +100,79 @@ er('er_in_sub_then_return', ['a%', 'b%'],
     P(S('v'), ';', B('\\', var('a%'), var('b%'))),
     ('callsub', 'fin', []),
     P(S('after'))], subs=FIN)
+
+# --- statements nested in other statements (statement records nest) -----
+# error in the condition of a single-line IF on one iteration, then in a
+# statement nested in the same IF on the next one (and vice versa)
+er('er_if1_cond_then_nested', ['a%', 'b%'],
+   [('onerror', 'handler'),
+    ('for', var('i%'), I(0), I(1), None,
+     [('if1', B('<>', B('\\', I(10), B('-', var('a%'), var('i%'))), I(0)),
+       [P(B('\\', I(20), B('-', var('b%'), var('i%')))), P(S('t'))], None),
+      P(S('n'), ';', var('i%'))]),
+    P(S('after'))] + TAIL + HANDLER_NEXT, subs=FIN, budget=2500,
+   pre='-1 <= x0 <= 2 and -1 <= x1 <= 2')
+er('er_if1_else_nested', ['a%', 'b%', 'c%'],
+   [('onerror', 'handler'),
+    ('for', var('i%'), I(0), I(1), None,
+     [('if1', B('>', B('\\', I(10), B('-', var('a%'), var('i%'))), I(0)),
+       [P(S('t'))],
+       [P(B('\\', I(20), B('-', var('b%'), var('i%')))), P(S('e'))]),
+      P(S('n'))]),
+    P(S('after'))] + TAIL + HANDLER_NEXT, subs=FIN, budget=2500,
+   pre='-1 <= x0 <= 2 and -1 <= x1 <= 2')
+# RESUME (same statement) after an error nested in a single-line IF whose
+# condition failed earlier
+er('er_if1_resume_same', ['a%', 'b%'],
+   [('onerror', 'handler'),
+    ('for', var('i%'), I(0), I(1), None,
+     [('if1', B('<>', B('\\', I(10), B('+', var('a%'), var('i%'))), I(99)),
+       [P(S('h'), ';', var('i%')),
+        P(B('\\', I(20), B('+', var('b%'), var('i%'))))], None),
+      P(S('n'))]),
+    P(S('after'))] + TAIL +
+   [('label', 'handler'), P(S('E'), ';', F('ERR')),
+    ('if1', B('=', B('+', var('a%'), var('i%')), I(0)),
+     [L(var('a%'), I(5))], [L(var('b%'), I(5))]),
+    ('resume', 'same')], subs=FIN, budget=3000,
+   pre='-2 <= x0 <= 1 and -2 <= x1 <= 1')
+# errors in statements nested in block IF / SELECT / WHILE inside a loop
+er('er_nested_blocks', ['a%', 'b%', 'c%'],
+   [('onerror', 'handler'),
+    ('for', var('i%'), I(0), I(1), None,
+     [('if', [(B('=', var('i%'), I(0)),
+               [P(B('\\', I(7), var('a%'))), P(S('b0'))]),
+              (B('=', var('i%'), I(1)),
+               [P(B('\\', I(8), var('b%'))), P(S('b1'))])],
+       [P(S('else'))]),
+      ('select', var('i%'),
+       [([('eq', I(1))], [P(B('\\', I(9), var('c%'))), P(S('c1'))])],
+       [P(S('c-else'))]),
+      P(S('n'))]),
+    P(S('after'))] + TAIL + HANDLER_NEXT, subs=FIN, budget=3000,
+   pre='-1 <= x0 <= 1 and -1 <= x1 <= 1 and -1 <= x2 <= 1')
+# a statement with pending operands that fails AFTER a user FUNCTION it
+# called has returned, inside a GOSUB routine (the RETURN must still find
+# its return address)
+er('er_fail_after_call_in_gosub', ['a%', 'b%'],
+   [('onerror', 'handler'),
+    ('gosub', 'work'), P(S('back')),
+    ('gosub', 'chk'), ('callsub', 'fin', []), P(S('end')), ('end',),
+    ('label', 'work'),
+    L(var('t&'), B('+', LG(100), B('\\', ('call', 'twice%', [var('a%')]),
+                                  var('b%')))),
+    P(S('t'), ';', var('t&')), ('return',),
+    ('label', 'chk'), P(S('gosub ok')), ('return',)] + HANDLER_NEXT,
+   subs=FIN + [Sub('twice%', 'function', [('x%', None)],
+                   [P(S('in')), ('setret', B('*', var('x%'), I(2)))])],
+   budget=1500, pre='-3 <= x0 <= 3')
+er('er_fail_after_sub_call_args', ['a%', 'b%'],
+   [('onerror', 'handler'),
+    P(B('+', B('*', var('a%'), I(2)),
+        B('\\', ('call', 'twice%', [B('+', var('a%'), I(1))]), var('b%')))),
+    ('callsub', 'show', [B('\\', var('a%'), var('b%'))]),
+    P(S('after'))] + TAIL + HANDLER_NEXT,
+   subs=FIN + [Sub('twice%', 'function', [('x%', None)],
+                   [('setret', B('*', var('x%'), I(2)))]),
+               Sub('show', 'sub', [('v%', None)], [P(S('v'), ';', var('v%'))])],
+   budget=1500, pre='-3 <= x0 <= 3')
